@@ -1,8 +1,8 @@
 (* Property C12: sequence / string built-ins match the documented operations for every index
    ONLY statements: each theorem is closed by `exact` of a lemma proved elsewhere and followed by Print Assumptions. *)
-From Coq Require Import ZArith NArith List Bool Lia Permutation.
+From Coq Require Import ZArith NArith List Bool Lia Permutation FMapPositive.
 Import ListNotations.
-Require Import Base Builtins SeqProofs Strings SliceReal.
+Require Import Base Builtins SeqProofs Strings SliceReal Interp Machine Spec Refine2 RunG SeqSpec.
 
 Theorem join_split sep s :
   sep <> [] -> joinN sep (split_on (S (length s)) sep s []) = s.
@@ -47,4 +47,24 @@ Theorem slice_list_is_positions {A} (d:A) (l:list A) start stop step :
   /\ Forall (fun i => 0 <= i < Z.of_nat (length l)) (slice_indices (Z.of_nat (length l)) start stop step).
 Proof. exact (SliceReal.slice_list_is_positions d l start stop step). Qed.
 Print Assumptions slice_list_is_positions.
+
+(* map applies the function once per element and collects the results in list order (for a callee that is a state-free function app) *)
+Theorem map_in_order (rec : list positive -> heap -> world -> task -> out) (f : evalr) (sp : span) (app : list value -> value) (PURE : forall ip h w xs, rec ip h w (TComp (proc_body (PApply f sp xs))) = Done h w (inl (app xs)) 0)  :
+  forall l ip h w, runG rec (list value) ip h w (map_call (fun x => PApply f sp [x]) l) = DoneG h w (inl (map (fun x => app [x]) l)) 0.
+Proof. exact (SeqSpec.map_in_order rec f sp app PURE). Qed.
+Print Assumptions map_in_order.
+
+(* function-first fold: f(... f(f(init, x1), x2) ..., xn) *)
+Theorem fold_left_assoc (rec : list positive -> heap -> world -> task -> out) (f : evalr) (sp : span) (app : list value -> value) (PURE : forall ip h w xs, rec ip h w (TComp (proc_body (PApply f sp xs))) = Done h w (inl (app xs)) 0)  :
+  forall l acc ip h w,
+  runG rec value ip h w (fold_loop f sp false acc l) = DoneG h w (inl (fold_left (fun a x => app [a; x]) l acc)) 0.
+Proof. exact (SeqSpec.fold_left_assoc rec f sp app PURE). Qed.
+Print Assumptions fold_left_assoc.
+
+(* list-first fold (run over the reversed list): f(x1, f(x2, ... f(xn, init))) *)
+Theorem fold_right_assoc (rec : list positive -> heap -> world -> task -> out) (f : evalr) (sp : span) (app : list value -> value) (PURE : forall ip h w xs, rec ip h w (TComp (proc_body (PApply f sp xs))) = Done h w (inl (app xs)) 0)  :
+  forall l acc ip h w,
+  runG rec value ip h w (fold_loop f sp true acc (rev l)) = DoneG h w (inl (fold_right (fun x a => app [x; a]) acc l)) 0.
+Proof. exact (SeqSpec.fold_right_assoc rec f sp app PURE). Qed.
+Print Assumptions fold_right_assoc.
 
